@@ -39,8 +39,18 @@ CLAIMS = {
              "Further proofs (listed in evidence) cover the daemons' reply mapping, the size limit and the Received field.",
         note="qmail-queue's own behaviour is C01; substdio, close and wait_pid are environment stubs.",
         design_ref="DESIGN.md section 5 C07"),
+    "C15": dict(
+        text="Proof (CBMC, complete unwinding of the constant 16-step loop, full domain 0 <= age < 2^32): squareroot() is the "
+             "integer square root; nextretry() (squareroot through its contract) is strictly in the future and >= birth + "
+             "skip^2 (exact formula birth + (floor(sqrt(age))+skip)^2 in the thorough tier). Bounded stand-in (labelled, not "
+             "counted as proved): prioq_insert/prioq_delmin re-establish heap order, the root is a minimum, and the "
+             "multiset of elements is preserved, for every heap of <= 16 (order) / <= 8 (multiset) elements.",
+        note="Clock and birth time in [0, 2^40) s, ages < 2^32 s. Heap order for unbounded sizes needs a quantified invariant "
+             "that none of the installed solvers discharges (DESIGN 2.9); daemon histories (restart, ALRM, expiry) are covered "
+             "only through the per-function proofs listed in evidence.",
+        design_ref="DESIGN.md section 5 C15"),
 }
 
 NOT_APPLICABLE = {p: PENDING for p in
-                  ["C01", "C02", "C03", "C04", "C08", "C09", "C10", "C11", "C12", "C13", "C14", "C15",
+                  ["C01", "C02", "C03", "C04", "C08", "C09", "C10", "C11", "C12", "C13", "C14",
                    "C16", "C17", "C19", "C20"]}
